@@ -715,6 +715,10 @@ class MThread:
             raise RuntimeError("threads can only be started once")
         s.retrace()
         s.yield_point()
+        s.thread_starts = getattr(s, "thread_starts", 0) + 1
+        if getattr(s, "fail_thread_start", None) == s.thread_starts:
+            # resource exhaustion: the OS refuses another thread (what CPython reports as RuntimeError)
+            raise RuntimeError("can't start new thread")
         self._started = True
         t = s._new_task(self.name, self.run)
         t.model_thread = self
